@@ -215,10 +215,12 @@ const TheoryTerm& TheoryData::addTerm(Id_t termId, const char* name) {
 	return addTerm(termId, Potassco::toSpan(name, name ? std::strlen(name) : 0));
 }
 const TheoryTerm& TheoryData::addTerm(Id_t termId, Id_t funcId, const IdSpan& args) {
-	return setTerm(termId) = TheoryTerm(FuncData::newFunc(static_cast<int32_t>(funcId), args));
+	TheoryTerm& t = setTerm(termId); // may throw: must happen before the allocation
+	return (t = TheoryTerm(FuncData::newFunc(static_cast<int32_t>(funcId), args)));
 }
 const TheoryTerm& TheoryData::addTerm(Id_t termId, Tuple_t type, const IdSpan& args) {
-	return setTerm(termId) = TheoryTerm(FuncData::newFunc(static_cast<int32_t>(type), args));
+	TheoryTerm& t = setTerm(termId); // may throw: must happen before the allocation
+	return (t = TheoryTerm(FuncData::newFunc(static_cast<int32_t>(type), args)));
 }
 void TheoryData::removeTerm(Id_t termId) {
 	if (hasTerm(termId)) {
